@@ -457,6 +457,7 @@ impl<'tcx> Cx<'tcx> {
                     if let Ok(l) = tcx.layout_of(ty::TypingEnv::fully_monomorphized().as_query_input(inner)) {
                         let (prov, off) = ptr.into_raw_parts();
                         let aid = prov.alloc_id();
+                        self.enum_variant(mir::ConstValue::Indirect { alloc_id: aid, offset: off }, inner, o);
                         if let Some(rustc_middle::mir::interpret::GlobalAlloc::Memory(a)) = tcx.try_get_global_alloc(aid) {
                             let a = a.inner();
                             let start = off.bytes() as usize;
@@ -499,6 +500,7 @@ impl<'tcx> Cx<'tcx> {
                 }
             }
             mir::ConstValue::Indirect { alloc_id, offset } => {
+                self.enum_variant(val, t, o);
                 if let Some(rustc_middle::mir::interpret::GlobalAlloc::Memory(a)) = tcx.try_get_global_alloc(alloc_id) {
                     let a = a.inner();
                     if let Ok(l) = tcx.layout_of(ty::TypingEnv::fully_monomorphized().as_query_input(t)) {
@@ -511,6 +513,50 @@ impl<'tcx> Cx<'tcx> {
                     }
                 }
             }
+        }
+    }
+
+    /// for a constant of enum type: the name of its variant (so that `&Token::Plus` is readable);
+    /// nested enum payloads (e.g. `Some(&Token::Plus)`) are listed under "nested"
+    fn enum_variant(&self, val: mir::ConstValue, t: Ty<'tcx>, o: &mut Vec<(&'static str, J)>) {
+        let mut found = Vec::new();
+        self.enum_variant_rec(val, t, 0, &mut found);
+        if let Some((e, v)) = found.first() {
+            o.push(("variant", J::Str(v.clone())));
+            o.push(("enum", J::Str(e.clone())));
+        }
+        if found.len() > 1 {
+            let rest: Vec<J> = found[1..]
+                .iter()
+                .map(|(e, v)| J::Arr(vec![J::Str(e.clone()), J::Str(v.clone())]))
+                .collect();
+            o.push(("nested", J::Arr(rest)));
+        }
+    }
+
+    fn enum_variant_rec(&self, val: mir::ConstValue, t: Ty<'tcx>, depth: usize, found: &mut Vec<(String, String)>) {
+        if depth > 3 || t.has_non_region_param() {
+            return;
+        }
+        match t.kind() {
+            ty::Adt(adt, _) if adt.is_enum() => {
+                if let Some(d) = self.tcx.try_destructure_mir_constant_for_user_output(val, t) {
+                    if let Some(vi) = d.variant {
+                        found.push((self.path(adt.did()), adt.variant(vi).name.to_string()));
+                    }
+                    for (fv, ft) in d.fields.iter() {
+                        self.enum_variant_rec(*fv, *ft, depth + 1, found);
+                    }
+                }
+            }
+            ty::Ref(_, inner, _) => {
+                if let mir::ConstValue::Scalar(mir::interpret::Scalar::Ptr(ptr, _)) = val {
+                    let (prov, off) = ptr.into_raw_parts();
+                    let v2 = mir::ConstValue::Indirect { alloc_id: prov.alloc_id(), offset: off };
+                    self.enum_variant_rec(v2, *inner, depth + 1, found);
+                }
+            }
+            _ => {}
         }
     }
 
